@@ -174,7 +174,10 @@ class C09(Harness):
         out["predlog1"] = list(log)
         del log[:]
         if nb:
-            f.update(yb, update_params=inp["update_params"])
+            if inp["update_params"] and kind != "online":  # (the online ensemble documents update_params=False as its default)
+                f.update(yb)  # (re-estimation is update's default: the bare call)
+            else:
+                f.update(yb, update_params=inp["update_params"])
             out["updlog"] = list(log)
             del log[:]
             p2 = f.predict()
